@@ -195,6 +195,87 @@ pub fn bank_program(rng: &mut Rng) -> Vec<u8> {
             if rng.chance(1, 4) {
                 s.push_str("#d8 $\n");
             }
+            // positions moved by directives that emit nothing, then a label
+            // with nothing after it (possibly past the end of a sized bank)
+            match rng.below(6) {
+                0 => s.push_str(&format!("#align {}\n", rng.pick(&["8", "16", "32", "64", "128"]))),
+                1 => s.push_str(&format!("#res {}\n", rng.pick(&["1", "2", "4", "8", "16"]))),
+                2 => s.push_str(&format!("#addr {}\n", rng.pick(&["0x2", "0x4", "0x8", "0x10", "0x11"]))),
+                _ => {}
+            }
+            if rng.chance(1, 2) {
+                s.push_str(&format!("{}_end:\n", names[i]));
+            }
+        }
+    }
+    s.into_bytes()
+}
+
+
+/// Forward labels whose guessed values move between iterations, used through
+/// asm blocks that forward them to constrained inner instructions, next to
+/// instructions whose size depends on the operand: convergence paths where a
+/// guess may fail a constraint that the converged value passes (and back).
+pub fn convergence_program(rng: &mut Rng) -> Vec<u8> {
+    let mut s = String::from("#ruledef\n{\n");
+    let c1 = rng.below(6);
+    let c2 = rng.range(1, 12);
+    s.push_str(&format!("    emit {{x: u8}} =>\n    {{\n        assert(x != {})\n        0x11 @ x\n    }}\n", c1));
+    s.push_str(&format!("    emitlt {{x: u8}} =>\n    {{\n        assert(x < {})\n        0x12 @ x\n    }}\n", c2));
+    s.push_str("    test {x} => asm { emit {x} }\n");
+    s.push_str("    testlt {x} => asm { emitlt {x} }\n");
+    s.push_str("    two {x}, {y} => asm {\n        emit {x}\n        emitlt {y}\n    }\n");
+    s.push_str("    ldv {x} => x < 0x10 ? 0x1`4 @ x`4 : 0x11 @ x`8\n");
+    s.push_str("    ldw {x} =>\n    {\n        assert(x < 4)\n        0x20 @ x`8\n    }\n    ldw {x} =>\n    {\n        assert(x >= 4)\n        0x21 @ x`16\n    }\n}\n\n");
+    let labels = ["la", "lb", "lc", "ld_", "le"];
+    let nl = rng.range(2, 5);
+    let n = rng.range(2, 7);
+    let mut placed = 0;
+    for i in 0..n {
+        let l = labels[rng.below(nl)];
+        let l2 = labels[rng.below(nl)];
+        match rng.below(7) {
+            0 => s.push_str(&format!("test {}\n", l)),
+            1 => s.push_str(&format!("testlt {}\n", l)),
+            2 => s.push_str(&format!("ldv {}\n", l)),
+            3 => s.push_str(&format!("ldw {}\n", l)),
+            4 => s.push_str(&format!("two {}, {}\n", l, l2)),
+            5 => s.push_str(&format!("emit {}\n", l)),
+            _ => s.push_str(&format!("#d8 {}\n", i + 1)),
+        }
+        if placed < nl && rng.chance(1, 3) {
+            s.push_str(&format!("{}:\n", labels[placed]));
+            placed += 1;
+        }
+    }
+    while placed < nl {
+        s.push_str(&format!("{}:\n", labels[placed]));
+        placed += 1;
+        if rng.chance(1, 2) {
+            s.push_str("#d8 0xee\n");
+        }
+    }
+    s.into_bytes()
+}
+
+/// A program of several hundred instructions with a few that match no rule,
+/// far apart: whatever processes instructions in chunks (or in parallel)
+/// must still report in source order.
+pub fn big_program(rng: &mut Rng) -> Vec<u8> {
+    let mut s = String::from("#ruledef\n{\n    op {v: u8} => 0x10 @ v\n    nop => 0x00\n    jp {a: u16} => 0x20 @ a\n}\n\ntop:\n");
+    let n = rng.range(260, 700);
+    let nbad = rng.range(2, 5);
+    let mut bad: Vec<usize> = (0..nbad).map(|_| rng.below(n)).collect();
+    bad.sort();
+    for i in 0..n {
+        if bad.contains(&i) {
+            s.push_str(&format!("    bogus{} {}\n", i % 7, i % 251));
+        } else {
+            match i % 5 {
+                0 => s.push_str("    nop\n"),
+                1 => s.push_str("    jp top\n"),
+                _ => s.push_str(&format!("    op {}\n", i % 256)),
+            }
         }
     }
     s.into_bytes()
@@ -224,10 +305,23 @@ pub fn pool_job(seed: u64, k: usize, c: &Corpus) -> Job {
         // generated programs: many symbols / ambiguous prefixes / several
         // files with identical layout / on top of the built-in library
         let mut disk = crate::disk::Disk::new(corpus::PROJ);
-        let root = match rng.below(9) {
+        let root = match rng.below(12) {
             8 => {
                 disk.add_file("banks.asm", bank_program(&mut rng));
                 "banks.asm".to_string()
+            }
+            9 | 10 => {
+                disk.add_file("conv.asm", convergence_program(&mut rng));
+                "conv.asm".to_string()
+            }
+            11 => {
+                if rng.chance(1, 3) {
+                    disk.add_file("big.asm", big_program(&mut rng));
+                    "big.asm".to_string()
+                } else {
+                    disk.add_file("conv.asm", convergence_program(&mut rng));
+                    "conv.asm".to_string()
+                }
             }
             0 | 1 | 2 => {
                 disk.add_file("prog.asm", symbol_program(&mut rng));
@@ -681,7 +775,17 @@ pub fn run_proc(ctx: &mut Ctx, c: &Corpus, verif: &str) -> Vec<Replay> {
         let clock = if rng.chance(1, 2) { Some(*rng.pick(&[0i64, 2147483648, 4102444800, 253402300800])) } else { None };
         let tag = if rng.chance(1, 2) { format!("-{}", "x".repeat(rng.range(1, 40))) } else { String::new() };
         let env_vars = draw_env(&mut rng);
-        let plan = ProcPlan { job: job.clone(), faults: vec![], keys: keys.clone(), clock, scratch_tag: tag.clone(), env: env_vars.clone() };
+        // legal-but-unusual kernel behaviour is part of the environment too:
+        // interrupted and short reads/writes, a size hint that is too large
+        let mut kernel: Vec<crate::procsim::ProcFault> = Vec::new();
+        if rng.chance(1, 3) {
+            for k in ["eintr-read", "short-read", "short-write", "eintr-write", "stat-fd-inflate", "stat-fd-fail"] {
+                if rng.chance(1, 3) {
+                    kernel.push(crate::procsim::ProcFault { kind: k.to_string(), path: "*".to_string() });
+                }
+            }
+        }
+        let plan = ProcPlan { job: job.clone(), faults: kernel.clone(), keys: keys.clone(), clock, scratch_tag: tag.clone(), env: env_vars.clone() };
         let rec = ctx.exec_proc(&plan, "C10", verif);
         ctx.stats.inc("evaluations");
         ctx.stats.note("key_pairs", keys.clone());
@@ -689,7 +793,10 @@ pub fn run_proc(ctx: &mut Ctx, c: &Corpus, verif: &str) -> Vec<Replay> {
         if sens >= 2 {
             ctx.stats.note("nontrivial", format!("p:{}:{}", &jd[..16], &keys[..12]));
         }
-        let env = format!("fresh process, keys {}, clock {:?}, scratch suffix {:?}, environment {:?}", keys, clock, tag, env_vars);
+        let env = format!("fresh process, keys {}, clock {:?}, scratch suffix {:?}, environment {:?}, kernel behaviour {:?}", keys, clock, tag, env_vars, kernel.iter().map(|f| f.kind.as_str()).collect::<Vec<_>>());
+        if !kernel.is_empty() {
+            ctx.stats.inc("dim_kernel_behaviour");
+        }
         for v in compare_proc(&job, &base, &rec, &env) {
             out.push(proc_replay("C10", ctx.seed, ctx.run, v, plan.clone()));
         }
@@ -710,6 +817,7 @@ pub fn classify_proc(r: &Replay, verif: &str) -> Vec<Violation> {
     bp.clock = None;
     bp.scratch_tag = String::new();
     bp.env = vec![];
+    bp.faults = vec![];
     let base = crate::procsim::run_proc(&bp, verif);
     let rec = crate::procsim::run_proc(plan, verif);
     compare_proc(&plan.job, &base, &rec, "replay")
